@@ -17,7 +17,7 @@ func propC12() Property {
 		Explanation: "The framing parser keeps a window (buffer) into a backing array (bigBuffer) that is re-pointed and refilled by one function. R1 (no stale view): a slice loaded from the window is never used after a call that may refill/re-point it. " +
 			"R2 (no alias escapes): window-derived slices flow only into read-only sinks (bytes.Index/IndexByte, integer scan, (*bytes.Buffer).Write, copy source, the reader's destination inside the refill function, len/cap, and back into the window field); never into a return value, another heap location, a channel or bytes.NewBuffer. " +
 			"R3 (refill preserves content): where the window is re-pointed, the old content was copied into the new window first; the read destination is buffer[len:cap]; afterwards the window is extended by exactly that read's count. " +
-			"R4 (explicit-flow non-interference): the values returned by the index-finding methods and the bounds that cut a frame do not explicitly depend on how much is buffered (len/cap of the buffers, the read count); those quantities only steer when to refill. R5: the io.Reader contract allows data together with an error (the last bytes with io.EOF); every place that gives up because the refill returned an error does so only when that same refill returned zero bytes, otherwise the delivered bytes would be dropped depending on how the stream was chunked. R6: in every function a reader is wrapped by at most one framing parser (a second parser on the same reader loses what the first one buffered ahead).",
+			"R4 (explicit-flow non-interference): the values returned by the index-finding methods and the bounds that cut a frame do not explicitly depend on how much is buffered (len/cap of the buffers, the read count); those quantities only steer when to refill. R5: the io.Reader contract allows data together with an error (the last bytes with io.EOF); every place that gives up because the refill returned an error does so only when that same refill returned zero bytes, otherwise the delivered bytes would be dropped depending on how the stream was chunked. R6: in every function a reader is wrapped by at most one framing parser (a second parser on the same reader loses what the first one buffered ahead). R7: the parser's reader field is stored only on a parser allocated in the same function (its constructor): a used parser is never re-pointed at another stream.",
 		NotDecided: "implicit flows (loop exits depend on how much is buffered — argued by the 'refill until found' loop shape, not decided), behaviour for streams with junk between messages, termination.",
 		Rules: []RuleDef{
 			{ID: "C12-R1", Desc: "no stale buffer view across a refill", Min: 5, Run: c12R1},
@@ -26,16 +26,17 @@ func propC12() Property {
 			{ID: "C12-R4", Desc: "frame indices not data-dependent on read sizes", Min: 4, Run: c12R4},
 			{ID: "C12-R5", Desc: "a read error ends the search only when no bytes were read", Min: 2, Run: c12R5},
 			{ID: "C12-R6", Desc: "one framing parser per reader", Min: 2, Run: c12R6},
+			{ID: "C12-R7", Desc: "a parser keeps the reader it was constructed with", Min: 1, Run: c12R7},
 		},
 	}
 }
 
 type parserInfo struct {
-	T            *types.Named
-	fBuf, fBig   *types.Var
-	fReader      *types.Var
-	refill       *ssa.Function
-	methods      []*ssa.Function
+	T          *types.Named
+	fBuf, fBig *types.Var
+	fReader    *types.Var
+	refill     *ssa.Function
+	methods    []*ssa.Function
 }
 
 func getParser(p *Prog) *parserInfo {
